@@ -195,7 +195,9 @@ def foreign_option_items(rng, count, *, allow_default=True, allow_transparent=Fa
     several: bare and valued `ascii_case_insensitive`, serialize / to_string, message / detailed_message, props, default_with
     (variant and field level), default, doc comments.  Options of other derives mean nothing to these derives."""
     shapes = [("unit", []), ("tuple", ["u8"]), ("tuple", ["String"]), ("named", [("flag", "bool")]), ("named", [("a", "usize"), ("b", "String")]),
-              ("tuple", ["String", "i32"]), ("tuple", ["i32"]), ("named", [("n", "u8")])]
+              ("tuple", ["String", "i32"]), ("tuple", ["i32"]), ("named", [("n", "u8")]),
+              # fields named by raw identifiers that are keywords: a constructor or pattern has to write them as `r#type: ..`
+              ("named", [("r#type", "u8"), ("r#fn", "bool")]), ("named", [("r#match", "String")])]
     out = []
     for j in range(count):
         n = rng.randint(3, 7)
